@@ -1,3 +1,5 @@
+import datetime
+
 from excel2pycl.src.cell import Cell
 from excel2pycl.src.context import Context
 from excel2pycl.src.excel import Excel
@@ -36,8 +38,13 @@ class CellTranslator(AbstractTranslator):
                     code = EntryPointTokenTranslator.translate(ast, excel, context)
                 finally:
                     context._cells_in_progress.discard(uid)
+            elif cell.value is None:
+                code = 'self.EmptyCell()'
+            elif isinstance(cell.value, (bool, int, float, str, datetime.datetime, datetime.date, datetime.time, datetime.timedelta)):
+                code = repr(cell.value)
             else:
-                code = repr(cell.value) if cell.value is not None else 'self.EmptyCell()'
+                from excel2pycl.src.exceptions import E2PyclParserException
+                raise E2PyclParserException(f'Unsupported cell value of type {type(cell.value).__name__}', cell)
             context.set_cell(cell, code)
         return cell, excel, context
 
